@@ -196,6 +196,9 @@ func (h *histRun) step(r roundIn) {
 			wireTerm = fmt.Sprintf("(Some (%s, %s))", coqList(bs), coqList(tbl))
 		}
 	}
+	// the remaining callbacks
+	quorum, _ := p.ObservationQuorum(ctx, outctx, nil, aos)
+	acceptAll := true
 	// Outcome
 	var outBytes []byte
 	oerr, opanic, opv := protect(func() error {
@@ -244,6 +247,9 @@ func (h *histRun) step(r roundIn) {
 		default:
 			repKind = "RepOk"
 			for _, rw := range rwis {
+				a1, e1 := p.ShouldAcceptAttestedReport(ctx, r.Seq, rw.ReportWithInfo)
+				a2, e2 := p.ShouldTransmitAcceptedReport(ctx, r.Seq, rw.ReportWithInfo)
+				acceptAll = acceptAll && a1 && a2 && e1 == nil && e2 == nil
 				if rw.ReportWithInfo.Info.ReportFormat == llotypes.ReportFormatRetirement {
 					rr, err := llo.StandardRetirementReportCodec{}.Decode(rw.ReportWithInfo.Report)
 					if err == nil {
@@ -285,8 +291,8 @@ func (h *histRun) step(r roundIn) {
 	if oerr == nil && !opanic && len(prev)+len(outBytes) < 6000 {
 		bytesTerm = fmt.Sprintf("(Some (%s, %s))", coqHex(prev), coqHex(outBytes))
 	}
-	h.rounds = append(h.rounds, fmt.Sprintf("{| rd_inst := %s; rd_seq := %d; rd_prev := %s; rd_target := %s; rd_scripted := %s; rd_retire := %s; rd_aos := %s; rd_valid := %s; rd_refused := %s; rd_out := %s; rd_bytes := %s; rd_wire := %s; rd_rep := %s; rd_retirement := %s; rd_reports := %s |}",
-		coqNat(r.Inst), r.Seq, prevTerm, coqDefs(tgt), coqBool(scriptedRound), coqBool(r.Retire), coqList(obsTerms), coqList(validTerms), coqBool(honestErr != ""), outTerm, bytesTerm, wireTerm, repKind, repRet, coqList(repTerms)))
+	h.rounds = append(h.rounds, fmt.Sprintf("{| rd_inst := %s; rd_seq := %d; rd_prev := %s; rd_target := %s; rd_scripted := %s; rd_retire := %s; rd_aos := %s; rd_valid := %s; rd_refused := %s; rd_out := %s; rd_bytes := %s; rd_wire := %s; rd_callbacks := (%s, %s); rd_rep := %s; rd_retirement := %s; rd_reports := %s |}",
+		coqNat(r.Inst), r.Seq, prevTerm, coqDefs(tgt), coqBool(scriptedRound), coqBool(r.Retire), coqList(obsTerms), coqList(validTerms), coqBool(honestErr != ""), outTerm, bytesTerm, wireTerm, coqBool(quorum), coqBool(acceptAll), repKind, repRet, coqList(repTerms)))
 	h.outs = append(h.outs, rec)
 }
 
